@@ -51,7 +51,7 @@ static const char *ansname[] = { "->0", "->Default", "->Default|Fail,id:=0", "->
 enum { F_DEFAULT = mpt::event::Default, F_FAIL = mpt::event::Fail, F_TERM = mpt::event::Terminate };
 
 // ---------------------------------------------------------------- alphabet
-enum Kind { DSET, XSET, DCLR, CSET, CCLR, EMIT, EMSG, EMSG_EMPTY, ENULL, HASH, HASH_BAD, SETERR, SETDEF, FINI, XRESERVE, XRESERVE_RAW, DCOPY, CCOPY,
+enum Kind { DSET, XSET, DCLR, CSET, CCLR, EMIT, EMSG, EMSG_EMPTY, ENULL, HASH, HASH_BAD, SETERR, SETDEF, FINI, XRESERVE, XRESERVE_RAW, DCOPY, CCOPY, RESIZE,
             W_RESERVE, W_REL, W_SET, W_CLEAR };
 struct Letter { Kind k; uint64_t id; int ans; int shape; std::string name; std::string sig; };
 
@@ -105,6 +105,9 @@ static void build_letters(int alpha, bool tied, std::vector<Letter> &L)
 	L.push_back(Letter{SETERR, 0, 0, 0, "dispatch::set_error(NULL)", "set_error"});
 	for (uint64_t id : R) L.push_back(Letter{SETDEF, id, 0, 0, "dispatch::set_default(" + idname(id) + ")", "set_default"});
 	L.push_back(Letter{FINI, 0, 0, 0, "dispatch_fini", "dispatch_fini"});
+	// generic array interface of the dispatcher (unique_array<command>): drop all entries / all but the first slot
+	L.push_back(Letter{RESIZE, 0, 0, 0, "dispatch.resize(0)", "array::resize"});
+	L.push_back(Letter{RESIZE, 1, 0, 0, "dispatch.resize(1)", "array::resize"});
 	// value copies of the C++ objects (letters are only enabled while the classes are copyable)
 	L.push_back(Letter{DCOPY, 0, 0, 0, "{ dispatch copy(d); } (copy-construct, destroy the copy)", "dispatch(copy)"});
 	L.push_back(Letter{DCOPY, 0, 0, 1, "{ dispatch copy; copy = d; } (assign, destroy the copy)", "dispatch(copy)"});
@@ -615,10 +618,6 @@ bool Sys::apply_disp(const Letter &l)
 			uint64_t id = djb2x(txt);
 			setcls(target_class(id));
 			if (id != mpt::mpt_hash(txt, (int) n)) return fail("hash-function", "mpt_hash differs from the documented djb2-xor variant");
-			uint8_t S[32]; size_t L;
-			S[0] = mpt::msgtype::Command; S[1] = l.shape ? ' ' : 0;
-			memcpy(S + 2, txt, n);
-			if (l.shape) { memcpy(S + 2 + n, " now", 4); L = 6 + n; } else { S[2 + n] = 0; L = 3 + n; }
 			int target = -3, want_ret; uint64_t want_id, id_after = id;
 			if (reg.count(id)) {
 				target = reg[id];
@@ -629,13 +628,23 @@ bool Sys::apply_disp(const Letter &l)
 				target = fb;
 				want_ret = model_answer(target, id_after, true); want_id = id_after;
 			} else { want_ret = F_DEFAULT | F_FAIL; want_id = 0; }
+			// separator letters: ' ' with tail " now"; on the final op also ':' with tail ":arg\0" and ':' with a NUL terminated single word
+			for (int sv = 0; sv < (l.shape && all ? 3 : 1); ++sv) {
+			uint8_t S[32]; size_t L;
+			const char *sepcls = !l.shape ? 0 : (sv == 0 ? 0 : (sv == 1 ? "printable-separator" : "printable-separator,terminated-word"));
+			S[0] = mpt::msgtype::Command; S[1] = !l.shape ? 0 : (sv ? ':' : ' ');
+			memcpy(S + 2, txt, n);
+			if (!l.shape) { S[2 + n] = 0; L = 3 + n; }
+			else if (sv == 0) { memcpy(S + 2 + n, " now", 4); L = 6 + n; }
+			else if (sv == 1) { memcpy(S + 2 + n, ":arg", 5); L = 7 + n; }
+			else { S[2 + n] = 0; L = 3 + n; }
 			for (size_t c1 = all ? 0 : L; c1 <= L; ++c1) for (size_t c2 = c1; c2 <= L; ++c2) for (int clen = 2; clen >= 0; --clen) {
 				if ((clen < 2 && c2 != L) || (clen < 1 && c1 != L)) continue;   // fewer segments only when the dropped ones are empty
 				if (!all && clen) continue;
 				// text bytes are S[2, 2+n): which segments hold them?
 				size_t tb = 2, te = 2 + n;
 				int sb = tb < c1 ? 0 : (tb < c2 ? 1 : 2), se = te - 1 < c1 ? 0 : (te - 1 < c2 ? 1 : 2);
-				setcls(target_class(id), clen == 0 ? "one-segment" : (sb != se ? "text-crosses-segments" : (c1 < 2 && c1 ? "header-split" : "text-in-one-segment")));
+				setcls(target_class(id), clen == 0 ? "one-segment" : (sb != se ? "text-crosses-segments" : (c1 < 2 && c1 ? "header-split" : "text-in-one-segment")), sepcls);
 				frag_txt = txt; frag_c1 = c1; frag_c2 = c2; frag_len = L; frag_clen = clen;
 				obs.clear(); exp.clear();
 				if (target >= 0) exp.push_back(Exp{target, false});
@@ -660,6 +669,7 @@ bool Sys::apply_disp(const Letter &l)
 				if (ret != want_ret) return fail("return-value", fmt("returned %d, expected %d", ret, want_ret));
 				if (evid != want_id) return fail("return-value", "event id after the call is " + idname(evid) + ", expected " + idname(want_id));
 				if (target >= 0 && toks[target].kind == 0) { delivered = true; if (sb != se) crossed = true; }
+			}
 			}
 			frag_txt = 0;
 			if (target >= 0 && toks[target].kind == 0) cnt("path:hash delivered");
@@ -695,6 +705,25 @@ bool Sys::apply_disp(const Letter &l)
 		LIB((mpt::mpt_dispatch_fini(d), 0));
 		if (!exp.empty()) cnt("path:end-of-life on fini");
 		reg.clear(); rsv.clear(); def = 0; fb = -1; had_free = had_growth = false;
+		if (!settle()) return false;
+		return lookup_ok(); }
+	case RESIZE: {
+		mpt::buffer *b = tbuf();
+		size_t used = b ? b->_used / sizeof(mpt::command) : 0;
+		if (!b || used <= l.id) return false;   // not enabled: nothing to cut
+		setcls(tclass(), b->_content_traits ? "typed" : "untyped");
+		// every live entry behind the new length is removed: its handler gets the end-of-life call
+		std::vector<uint64_t> gone;
+		mpt::command *c = (mpt::command *) (b + 1);
+		for (size_t i = l.id; i < used; ++i) if (c[i].cmd) {
+			gone.push_back(c[i].id);
+			auto it = reg.find(c[i].id);
+			if (!rsv.count(c[i].id) && it != reg.end()) exp.push_back(Exp{it->second, true});
+		}
+		bool ok = LIB(d->resize((long) l.id));
+		if (!ok && obs.empty()) { cnt("array resize refused (not flagged)"); return lookup_ok(); }
+		for (uint64_t id : gone) { reg.erase(id); rsv.erase(id); }
+		if (!exp.empty()) cnt("path:end-of-life on array resize");
 		if (!settle()) return false;
 		return lookup_ok(); }
 	case DCOPY: {
